@@ -159,6 +159,7 @@ type Worker struct {
 	smallExpBits int
 	bigStripMax  int
 	b64prov  map[*Term]*Term
+	ufApps   map[string][]*Term
 	model    *Model
 	facts    map[int]bool
 	eqc      map[int]*Term
@@ -305,6 +306,7 @@ func (w *Worker) runJob(j Job) {
 	w.smallExpBits = 0
 	w.bigStripMax = -1
 	w.b64prov = nil
+	w.ufApps = nil
 	w.model = newModel(map[string]*big.Int{})
 	w.facts = map[int]bool{}
 	w.eqc = map[int]*Term{}
@@ -474,9 +476,27 @@ func (w *Worker) assertPC(t *Term) {
 }
 
 // checkM is check with model extraction; a sat model is returned as *Model.
+func (w *Worker) slowLog(t0 time.Time, r SatResult) {
+	if d := time.Since(t0); d > 2*time.Second && (w.eng.verbose || qstatOn) {
+		f := w.top()
+		where := "?"
+		if f != nil && f.cur != nil {
+			where = f.fn.String() + " " + w.eng.prog.Fset.Position(f.cur.Pos()).String()
+		}
+		fmt.Fprintf(os.Stderr, "[w%d] slow query %.1fs -> %s at %s (pc=%d conjuncts)\n", w.id, d.Seconds(), r, where, len(w.pcTerms))
+		if os.Getenv("VCHECK_PCDUMP") != "" {
+			for i, t := range w.pcTerms {
+				fmt.Fprintf(os.Stderr, "   pc[%d] %s\n", i, trunc(t.String(), 200))
+			}
+		}
+	}
+}
+
 func (w *Worker) checkM(extra *Term) (SatResult, *Model) {
 	w.qstat("branch")
+	t0 := time.Now()
 	r, m := w.solver.Check(extra, w.tc.vars)
+	w.slowLog(t0, r)
 	if r == Sat && m != nil {
 		return r, newModel(m)
 	}
@@ -507,7 +527,9 @@ func (w *Worker) check(extra *Term, model bool) (SatResult, map[string]*big.Int)
 	if model {
 		vars = w.tc.vars
 	}
+	t0 := time.Now()
 	r, m := w.solver.Check(extra, vars)
+	w.slowLog(t0, r)
 	return r, m
 }
 
